@@ -11,9 +11,11 @@ TECH = {
     "B": "interprocedural trace summaries + error-path typestate over MIR, type-directed adapter composition",
     "C": "provenance dataflow, dominance and loop-nest rules over MIR",
     "D": "call-graph reachability / effect rules over MIR (incl. fmt::Display edges)",
-    "E": "predicate (valuation-set) dataflow over MIR",
-    "F": "structural table / sibling-agreement rules over HIR and MIR",
-    "G": "order-changing-call rule over MIR",
+    "E": "predicate (valuation-set) dataflow over MIR; cursor linear-form rules (consume-advance, tail flush, common base)",
+    "F": "structural table / sibling-agreement rules over HIR and MIR; net-effect analysis by conditional constant "
+         "propagation over MIR (engines/neteffect.py) for the DiffOp adjust helpers; call-site constant specialisation of helpers",
+    "G": "order / conservation rules over MIR (swap, remove, stale snapshot, shrink-then-empty, absorb-only-Equal, grouping "
+         "passes changes through) with dominance and backward-slice evidence",
 }
 
 def rule_ids(ps):
@@ -56,13 +58,20 @@ man = {
         {"name": "simlint", "path": "/verif/simlint", "serves_properties": sorted(spec.PROPERTIES),
          "kind_free_text": "rustc_private driver (nightly) run as RUSTC_WORKSPACE_WRAPPER under cargo check; exports the resolved "
                            "program (HIR+typeck, MIR with resolved callees, items/impls) as JSON facts per feature configuration"},
+        {"name": "neteffect", "path": "/verif/engines/neteffect.py",
+         "serves_properties": sorted(p for p in spec.PROPERTIES if "F5" in rule_ids(spec.PROPERTIES[p])),
+         "kind_free_text": "conditional constant propagation (forward dataflow with joins, callee cloning) over MIR: net effect "
+                           "of a &mut self method on the fields of an enum"},
+        {"name": "cursor", "path": "/verif/engines/cursor.py",
+         "serves_properties": sorted(p for p in spec.PROPERTIES if any(r in ("E2", "E3", "E5") for r in rule_ids(spec.PROPERTIES[p]))),
+         "kind_free_text": "cursor discipline of emission loops over MIR (linear forms, first-touch exploration, flush exhaustiveness)"},
     ] + [
         {"name": n, "path": "/verif/engines/%s.py" % n,
          "serves_properties": sorted(p for p in spec.PROPERTIES if any(r[0] == f for r in rule_ids(spec.PROPERTIES[p]))),
          "kind_free_text": TECH[f]} for f, n in sorted(ENGINE_OF.items())
     ],
     "checks": checks,
-    "notes": "Family: static analysis only. Five genuine defects were reported by the checks and repaired by unguarded `fix:` "
+    "notes": "Family: static analysis only. Six genuine defects were reported by the checks and repaired by unguarded `fix:` "
              "commits in /repo (see known_findings.json `fixed`); one known finding (compaction swap, C11/C05) is listed in "
              "known_findings.json and printed as KNOWN-FINDING. `selftest/run.py` (developer command) replays the mutation "
              "catalogue; `seeded/` holds independently written breaking changes.",
